@@ -29,20 +29,67 @@ func RenameArgumentsAction(newNames []string) RewriteAction {
 			return []ast.Option{option}
 		}
 
-		for i, arg := range option.Args {
-			previousName := arg.Name
-			option.Args[i].Name = newNames[i]
+		// Work on a copy: arguments and assignments can be shared with other
+		// options or with the constructor (merge_into, promote_options_to_constructor).
+		renamed := option.DeepCopy()
+		renamed.Default = option.Default
 
-			for j, assignment := range option.Assignments {
-				if assignment.Value.Argument != nil && assignment.Value.Argument.Name == previousName {
-					option.Assignments[j].Value.Argument.Name = newNames[i]
-				}
+		renames := make(map[string]string, len(renamed.Args))
+		for i, arg := range renamed.Args {
+			if _, found := renames[arg.Name]; !found {
+				renames[arg.Name] = newNames[i]
 			}
+			renamed.Args[i].Name = newNames[i]
 		}
 
-		option.AddToVeneerTrail("RenameArguments")
+		for i := range renamed.Assignments {
+			renameAssignmentArguments(&renamed.Assignments[i], renames)
+		}
 
-		return []ast.Option{option}
+		renamed.AddToVeneerTrail("RenameArguments")
+
+		return []ast.Option{renamed}
+	}
+}
+
+func renameArgument(arg *ast.Argument, renames map[string]string) {
+	if arg == nil {
+		return
+	}
+	if newName, found := renames[arg.Name]; found {
+		arg.Name = newName
+	}
+}
+
+func renamePathArguments(path ast.Path, renames map[string]string) {
+	for i := range path {
+		if path[i].Index != nil {
+			renameArgument(path[i].Index.Argument, renames)
+		}
+	}
+}
+
+func renameValueArguments(value *ast.AssignmentValue, renames map[string]string) {
+	renameArgument(value.Argument, renames)
+	if value.Envelope == nil {
+		return
+	}
+	for i := range value.Envelope.Values {
+		renamePathArguments(value.Envelope.Values[i].Path, renames)
+		renameValueArguments(&value.Envelope.Values[i].Value, renames)
+	}
+}
+
+// renameAssignmentArguments renames every mention of an argument: the assigned
+// value (envelopes included), path indices, constraints and nil-check paths.
+func renameAssignmentArguments(assignment *ast.Assignment, renames map[string]string) {
+	renamePathArguments(assignment.Path, renames)
+	renameValueArguments(&assignment.Value, renames)
+	for i := range assignment.Constraints {
+		renameArgument(&assignment.Constraints[i].Argument, renames)
+	}
+	for i := range assignment.NilChecks {
+		renamePathArguments(assignment.NilChecks[i].Path, renames)
 	}
 }
 
